@@ -380,6 +380,11 @@ def limit_images_87c800(bld, cases):
     return images, notes
 
 
+def json_key(v):
+    import json
+    return json.dumps(v, sort_keys=True)
+
+
 def main(tier):
     rep = Report(PID, tier)
     bld = build.get("hook")
@@ -397,6 +402,8 @@ def main(tier):
     gens = [("4004", "Dasm_Gen_4004.cfg", 11, "4004", "4004"), ("6800", "Dasm_Gen_6800.cfg", 13, "6800", "6800")]
     covs = [("4004", "Dasm_Cover_4004.cfg"), ("6800", "Dasm_Cover_6800.cfg"),
             ("4004", "Dasm_Edge_4004.cfg"), ("6800", "Dasm_Edge_6800.cfg")]
+    # sole-edge images (spec/DasmSole_Gen.tla): (table / dasl -cpu / asl cpu)
+    soles = [("87C00", "87C00", "87C00"), ("6800", "6800", "6800"), ("4004", "4004", "4004")]
 
     def tlc_task(t):
         if t[0] == "mc":
@@ -407,14 +414,19 @@ def main(tier):
                            timeout=2400, mem="6g", tags=("BEH",))
         if t[0] == "f87":
             return tlc.run("Dasm87_Gen", "Dasm87_Gen.cfg", workers=1, timeout=600, mem="1g", tags=("OUT",))
+        if t[0] == "sole":
+            return tlc.run("DasmSole_Gen", "DasmSole_Gen%s_%s.cfg" % ("Q" if quick else "", t[1][0]), workers=1,
+                           timeout=1800, mem="2g", tags=("OUT", "FORMS"))
         return tlc.run("Dasm_Cover", t[1][1], workers=1, deadlock=True, timeout=900, mem="4g", tags=("BEH", "BAD"))
-    tasks = [("mc", c) for c in cfgs] + [("gen", g) for g in gens] + [("cov", c) for c in covs] + [("f87", None)]
-    with Phase("TLC: %d Dasm_MC configurations, %d generators" % (len(cfgs), len(gens) + len(covs))):
-        allruns = pmap(tlc_task, tasks, workers=min(5, NCPU))
+    tasks = ([("mc", c) for c in cfgs] + [("gen", g) for g in gens] + [("cov", c) for c in covs] + [("f87", None)]
+             + [("sole", x) for x in soles])
+    with Phase("TLC: %d Dasm_MC configurations, %d generators" % (len(cfgs), len(gens) + len(covs) + len(soles))):
+        allruns = pmap(tlc_task, tasks, workers=min(6, NCPU))
     runs = allruns[:len(cfgs)]
     sims = allruns[len(cfgs):len(cfgs) + len(gens)]
     covruns = allruns[len(cfgs) + len(gens):len(cfgs) + len(gens) + len(covs)]
-    f87run = allruns[-1]
+    f87run = allruns[len(cfgs) + len(gens) + len(covs)]
+    soleruns = allruns[len(cfgs) + len(gens) + len(covs) + 1:]
     for c, r in zip(cfgs, runs):
         tlc.must(r, "Dasm_MC(%s)" % c)
         if r.violation:
@@ -473,7 +485,32 @@ def main(tier):
         rep.cov["transitions"] += s.generated
         rep.cov["states"] += s.generated
         rep.part("Dasm_Gen(%s)" % g[0], simulated_states=s.generated, valid_images=k, wall_s=s.wall)
-    with Phase("round trip of %d images" % len(images)):
+    # sole-edge images: a routine reachable ONLY through the target operand of one control-transfer instruction
+    nsole = 0
+    for (iname, dc, ac), sr in zip(soles, soleruns):
+        tlc.must(sr, "DasmSole_Gen(%s)" % iname)
+        if sr.violation:
+            raise CheckError("DasmSole_Gen(%s) violates its own invariants: %s" % (iname, sr.violation[:800]))
+        forms = [x for (t, x) in sr.printed if t == "FORMS"]
+        sims = [x for (t, x) in sr.printed if t == "OUT"]
+        if len(forms) != 1 or not sims:
+            raise CheckError("DasmSole_Gen(%s): %d FORMS records, %d images" % (iname, len(forms), len(sims)))
+        # the dimension is present: every variant of every form with a target operand is the sole edge of an image,
+        # with the target routine behind it and in front of it
+        want = {(json_key(v), pos) for v in forms[0]["variants"] for pos in ("behind", "before")}
+        have = {(json_key(im["sole"]["variant"]), im["sole"]["pos"]) for im in sims}
+        if want - have:
+            raise CheckError("DasmSole_Gen(%s): no sole-edge image for %s" % (iname, sorted(want - have)[:4]))
+        for im in sims:
+            im["named_entry"] = False
+            im["closed"] = True
+            images.append((im, dc, ac))
+        nsole += len(sims)
+        rep.model("DasmSole_Gen(%s)" % iname, sr)
+        rep.part("DasmSole_Gen(%s)" % iname, images=len(sims), forms=forms[0]["forms"], variants=len(forms[0]["variants"]),
+                 closers=forms[0]["closers"], programs_enumerated=forms[0]["programs"],
+                 by_flow={k: len([i for i in sims if i["sole"]["flow"] == k]) for k in ("cond", "call", "jump")})
+    with Phase("round trip of %d images (%d sole-edge)" % (len(images), nsole)):
         def one(t):
             for attempt in (0, 1):
                 c = Collector()
